@@ -3,12 +3,12 @@ CONSTANTS
   M = {1}
   MaxN = 2
   Delays = {0, 1}
-  Actives = {0, 1}
+  Actives = {0, 1, 2}
   Starts = {2}
-  InitBlocks = {1}
+  InitBlocks = {1, 3}
   MaxMsgs = 2
-  Slack = 0
-  Faults = {"next"}
+  Slack = 1
+  Faults = {"start", "delay", "initiate", "waiter", "next"}
   BadMsgs = {FALSE, TRUE}
   Prompt = FALSE
 INVARIANTS TypeOK BlockExactInit BlockExactEnd FinishExact NeverEarly InOrder RegisteredIff FailureOutcome FifoNoLoss NotToEarlierState Lockstep LockstepPrompt PromptExact
